@@ -331,6 +331,7 @@ package syntax
 //@   trusted
 //@   pure
 //@   ensures len(errList) == 0 ==> isnil(result)
+//@   ensures len(errList) > 0 && (forall j :: 0 <= j && j < len(errList) ==> !isnil(errList[j])) ==> !isnil(result)
 //@   ensures len(errList) > 0 && (forall j :: 0 <= j && j < len(errList) ==> !isnil(errList[j]) && istype(errList[j], ptr_syntax.IncompatibleTypeError)) ==> !isnil(result)
 
 //@ func syntax.BuiltinType.IsAssignableFrom property C07 C17
@@ -441,6 +442,7 @@ package syntax
 // Default base file name of an output: "" unless it is a file/directory; the explicit out name; the id for path/file/complex types; otherwise id.typename.
 //@ func syntax.StructMember.GetOutFilename property C13
 //@   pure
+//@   opt deterministic on
 //@   ensures @notfile s.isFile != KindIsFile && s.isFile != KindIsDirectory ==> result == ""
 //@   ensures @outname (s.isFile == KindIsFile || s.isFile == KindIsDirectory) && s.OutName != "" ==> result == s.OutName
 //@   ensures @plain (s.isFile == KindIsFile || s.isFile == KindIsDirectory) && s.OutName == "" && (s.isComplex || s.Tname.Tname == KindFile || s.Tname.Tname == KindPath) ==> result == s.Id
@@ -452,6 +454,26 @@ package syntax
 //@   ensures @directory isnil(result) && (member.isFile == KindIsFile || member.isFile == KindIsDirectory) ==> st.isFile == KindIsDirectory
 //@   ensures @maycontain isnil(result) && member.isFile == KindMayContainPaths ==> st.isFile != KindIsNotFile
 //@   ensures @monotone old(st.isFile) == KindIsDirectory ==> st.isFile == KindIsDirectory
+//@   ensures @range st.isFile == KindIsNotFile || st.isFile == KindMayContainPaths || st.isFile == KindIsDirectory
+//@   ensures @frame base(st.Members) == old(base(st.Members)) && off(st.Members) == old(off(st.Members)) && len(st.Members) == old(len(st.Members))
+
+// A struct type compiles only if no two members are materialised under the same file name:
+// the name compared is the one the output is actually written under (explicit out name, or the
+// default derived from id and type), so `file a "x.txt"` clashes with `txt x`.
+//@ func syntax.Ast.err property C13
+//@   trusted
+//@   pure
+//@   ensures !isnil(result)
+//@ func syntax.StructType.compile property C13
+//@   requires st != nil && global != nil && (st.isFile == KindIsNotFile || st.isFile == KindMayContainPaths || st.isFile == KindIsDirectory)
+//@   requires forall j :: 0 <= j && j < len(st.Members) ==> st.Members[j] != nil
+//@   let M = old(st.Members)
+//@   ensures @distinctnames isnil(result) ==> forall i, j :: 0 <= i && i < j && j < len(M) && fn(syntax.StructMember.GetOutFilename, M[i]) != "" ==> fn(syntax.StructMember.GetOutFilename, M[i]) != fn(syntax.StructMember.GetOutFilename, M[j])
+//@   loop 1 invariant 0 <= iter && iter <= len(M) && base(st.Members) == base(M) && off(st.Members) == off(M) && len(st.Members) == len(M) && outNames != nil && (st.isFile == KindIsNotFile || st.isFile == KindMayContainPaths || st.isFile == KindIsDirectory)
+//@   loop 1 invariant forall j :: 0 <= j && j < len(M) ==> M[j] != nil && M[j] == old(st.Members[j])
+//@   loop 1 invariant forall j :: 0 <= j && j < len(errs) ==> !isnil(errs[j])
+//@   loop 1 invariant forall j :: 0 <= j && j < iter && fn(syntax.StructMember.GetOutFilename, M[j]) != "" ==> has(outNames, fn(syntax.StructMember.GetOutFilename, M[j]))
+//@   loop 1 invariant len(errs) == 0 ==> forall i, j :: 0 <= i && i < j && j < iter && fn(syntax.StructMember.GetOutFilename, M[i]) != "" ==> fn(syntax.StructMember.GetOutFilename, M[i]) != fn(syntax.StructMember.GetOutFilename, M[j])
 
 //@ func syntax.IsLegalUnixFilename property C13
 //@   pure
